@@ -91,6 +91,11 @@ def other_value(rng, default, alt):
     if isinstance(default, int):
         if isinstance(alt, str) and ("0, 1" in alt or "(0,1)" in alt.replace(" ", "")):
             return str(1 - default) if default in (0, 1) else None
+        r = rng.random()
+        if r < 0.2:
+            return "-%d" % int(rng.integers(1, 6))          # a signed integer is still an integer
+        if r < 0.3:
+            return "+%d" % (default + int(rng.integers(1, 4)))
         return str(default + int(rng.integers(1, 4)))
     if isinstance(default, float):
         forms = [repr(default * 1.5 + 0.25), "%.3e" % (default * 0.5 + 1e-6), "%d.0" % (int(abs(default)) + 2)]
